@@ -136,3 +136,50 @@ def graft(e, rng, composite_only=True, same_type=False, avoid_fields=("function"
     if not targets:
         return None
     return _replace_at(e, rng.choice(targets), s)
+
+
+# depth: a construct nested in a construct of the same family, 3 .. 100 levels (a counter, a
+# one-slot "enclosing operator", a loop that replaced a recursion are right for one and two
+# levels and wrong from the third, or from some larger depth on)
+NEST_DEPTHS = [3, 4, 5, 6, 8, 12, 20, 33, 64, 65, 70, 100]
+SMALL_NEST_DEPTHS = [3, 4, 5, 6, 8]
+
+
+def nest(wrap, depth, core):
+    """wrap(wrap(... wrap(core, 0) ..., depth - 2), depth - 1): wrap gets the level it builds"""
+    e = core
+    for i in range(depth):
+        e = wrap(e, i)
+    return e
+
+
+def family_towers(x=None, y=None):
+    """name -> wrap(e, level): one level of a construct around e; towers of ONE family, and
+    (alternating) of two families that belong together (sum in product in sum ...)"""
+    x = x if x is not None else p.Variable("x")
+    y = y if y is not None else p.Variable("y")
+    f = p.Variable("f")
+    a = p.Variable("a")
+    return {
+        "cse": lambda e, i: p.CommonSubexpression(e),
+        "cse-prefixed": lambda e, i: p.CommonSubexpression(e, f"t{i % 3}"),
+        "neg": lambda e, i: p.Product((-1, e)),
+        "square": lambda e, i: p.Power(e, 2),
+        "power-tower": lambda e, i: p.Power(2 if i % 2 else y, e),
+        "quotient-num": lambda e, i: p.Quotient(e, i % 3 + 2),
+        "quotient-den": lambda e, i: p.Quotient(i % 3 + 2, e),
+        "floordiv": lambda e, i: p.FloorDiv(e, i % 3 + 2),
+        "remainder": lambda e, i: p.Remainder(e, i % 5 + 7),
+        "sum-in-product": lambda e, i: p.Sum((e, i + 1)) if i % 2 else p.Product((e, y)),
+        "product-in-sum": lambda e, i: p.Product((e, 2)) if i % 2 else p.Sum((y, e)),
+        "call": lambda e, i: p.Call(f, (e,)),
+        "call-2nd-arg": lambda e, i: p.Call(f, (i, e)),
+        "subscript-aggregate": lambda e, i: p.Subscript(e, p.Variable("ijk"[i % 3] + (str(i // 3) if i >= 3 else ""))),
+        "subscript-index": lambda e, i: p.Subscript(a, e),
+        "if-branch": lambda e, i: p.If(p.Comparison(y, "<", i), e, i),
+        "if-condition": lambda e, i: p.If(p.Comparison(e, "<", i + 1), y, i),
+        "bitwise-not": lambda e, i: p.BitwiseNot(e),
+        "logical-not": lambda e, i: p.LogicalNot(e),
+        "min": lambda e, i: p.Min((e, y)) if i % 2 else p.Max((e, i)),
+        "lookup": lambda e, i: p.Lookup(e, "abc"[i % 3]),
+    }
